@@ -217,4 +217,172 @@ example : (runEntry (ρ := Unit) .required true none (.ok ()) .cancelled).2.leng
 example : serializeSet [⟨false, "a", "aval"⟩, ⟨true, "b", "bval"⟩, ⟨true, "b", "bval-2"⟩]
     = some [("a", .single "aval"), ("~b", .multiple ["bval", "bval-2"])] := by decide +kernel
 
+/-! ## Three sites found by this check and since repaired (D32, D33, D34)
+
+For each: the property-level statement, parameterised by the variant; it holds for the repaired
+variant (all inputs), hence on the current tree whenever the flag read from the source says the
+repair is there; it is refuted for the unrepaired variant by a concrete witness. -/
+
+/-! ### D32 — a re-key through the C API gives the result of the same re-key through the Rust API -/
+
+def RekeyFfiEqualsRustBy (keepsNone : Bool) : Prop :=
+  ∀ (validRaw : String → Bool) (m : MethodClass) (pass : CStr),
+    rekeyFfiG keepsNone validRaw m pass = rekeyRust validRaw m pass.asOptStr
+
+/-- … and for the CURRENT tree (`rekeyFfi` follows `Generated.Flags.passKeyAsRefKeepsNone`). -/
+def RekeyFfiEqualsRust : Prop :=
+  ∀ (validRaw : String → Bool) (m : MethodClass) (pass : CStr),
+    rekeyFfi validRaw m pass = rekeyRust validRaw m pass.asOptStr
+
+/-- With an `as_ref` that keeps an absent pass key absent the two routes agree, for every method,
+    every pass key (absent, blank, malformed, valid) and every notion of raw-key validity. -/
+theorem rekey_ffi_equals_rust_of_repair : RekeyFfiEqualsRustBy true := by
+  intro validRaw m pass; rfl
+
+/-- Hence on the current tree whenever the source has the repair. -/
+theorem rekey_ffi_equals_rust_current (hg : passKeyAsRefKeepsNone = true) : RekeyFfiEqualsRust := by
+  intro validRaw m pass
+  unfold rekeyFfi; rw [hg]; rfl
+
+/-- Without it the statement is FALSE (defect D32, found by this check, fixed in 7f6b5f2): a NULL
+    pass key becomes `Some("")`, so `askar_store_rekey(h, "kdf:…", NULL)` derives the new store key
+    from the empty password and succeeds, where `Store::rekey(.., PassKey::empty())` is refused. -/
+theorem rekey_null_pass_accepted_without_repair : ¬ RekeyFfiEqualsRustBy false := by
+  intro h
+  have := h (fun _ => false) .kdf .null
+  simp [rekeyFfiG, rekeyRust, resolveNewKey, passKeyAsRefG, CStr.asOptStr] at this
+
+/-- In particular the repaired C API refuses a NULL password for a derived key and a NULL raw key. -/
+theorem rekey_null_pass_refused_of_repair (validRaw : String → Bool) :
+    rekeyFfiG true validRaw .kdf .null = .error .input ∧ rekeyFfiG true validRaw .raw .null = .error .input := by
+  constructor <;> rfl
+
+/-- What holds for BOTH variants: a pass key that is present reaches the store unchanged, a NULL or
+    blank raw key is refused, and no pass key is needed to remove the protection. -/
+theorem rekey_without_repair_partial (keepsNone : Bool) (validRaw : String → Bool) (m : MethodClass) (pass : CStr) :
+    (pass.asOptStr ≠ none → rekeyFfiG keepsNone validRaw m pass = rekeyRust validRaw m pass.asOptStr)
+    ∧ rekeyFfiG keepsNone validRaw .raw .null = .error .input
+    ∧ rekeyFfiG keepsNone validRaw .raw (.utf8 "") = .error .input
+    ∧ rekeyFfiG keepsNone validRaw .unprotected pass = .ok () := by
+  refine ⟨?_, ?_, ?_, ?_⟩
+  · intro hp
+    cases hs : pass.asOptStr with
+    | none => exact absurd hs hp
+    | some v => cases keepsNone <;> simp [rekeyFfiG, rekeyRust, passKeyAsRefG, hs]
+  · cases keepsNone <;> simp [rekeyFfiG, resolveNewKey, passKeyAsRefG, CStr.asOptStr]
+  · cases keepsNone <;> simp [rekeyFfiG, resolveNewKey, passKeyAsRefG, CStr.asOptStr]
+  · cases keepsNone <;> simp [rekeyFfiG, resolveNewKey]
+
+/-- Either way the verdict on the current tree is decided by the flag read from the source. -/
+theorem rekey_ffi_status :
+    (passKeyAsRefKeepsNone = true ∧ RekeyFfiEqualsRust) ∨ (passKeyAsRefKeepsNone = false ∧ ¬ RekeyFfiEqualsRust) := by
+  cases hg : passKeyAsRefKeepsNone with
+  | true => exact Or.inl ⟨rfl, rekey_ffi_equals_rust_current hg⟩
+  | false =>
+    refine Or.inr ⟨rfl, fun h => rekey_null_pass_accepted_without_repair ?_⟩
+    intro validRaw m pass
+    have := h validRaw m pass
+    unfold rekeyFfi at this; rw [hg] at this; exact this
+
+/-! ### D33 — the error code an entry point returned is the one `askar_get_current_error` reports -/
+
+/-- every error that goes through `set_last_error` is what the next `askar_get_current_error`
+    reports, whatever the slot held before; reading empties the slot -/
+theorem reported_error_is_retrievable (c : Code) (s : ErrSlot) :
+    (takeCurrentError (setLastError c s).2).1 = c.num ∧ (takeCurrentError (takeCurrentError (setLastError c s).2).2).1 = 0 := by
+  constructor <;> rfl
+
+def OrderByErrorRetrievableBy (recorded : Bool) : Prop :=
+  ∀ s : ErrSlot, (orderByRejectG recorded s).1 = .unsupported
+    ∧ (takeCurrentError (orderByRejectG recorded s).2).1 = Code.unsupported.num
+
+/-- … and for the CURRENT tree (`orderByReject` follows `Generated.Flags.ffiOrderByErrorRecorded`). -/
+def OrderByErrorRetrievable : Prop :=
+  ∀ s : ErrSlot, (orderByReject s).1 = .unsupported ∧ (takeCurrentError (orderByReject s).2).1 = Code.unsupported.num
+
+/-- When the rejection returns through `set_last_error` the caller can retrieve it, whatever the
+    slot held before. -/
+theorem order_by_error_retrievable_of_repair : OrderByErrorRetrievableBy true := by
+  intro s; constructor <;> rfl
+
+theorem order_by_error_retrievable_current (hg : orderByErrorRecorded = true) : OrderByErrorRetrievable := by
+  intro s
+  unfold orderByReject; rw [hg]
+  exact order_by_error_retrievable_of_repair s
+
+/-- Without it the statement is FALSE (defect D33, found by this check, fixed in fde06f1): the direct
+    `return ErrorCode::Unsupported` leaves the slot alone, so after an earlier `Input` error (code 5)
+    the caller who asks for the details of the `Unsupported` failure is told `Input`. -/
+theorem order_by_error_lost_without_repair : ¬ OrderByErrorRetrievableBy false := by
+  intro h
+  have := (h 5).2
+  simp [orderByRejectG, takeCurrentError, Code.num] at this
+
+/-- What holds for both variants: the return code itself, and the slot is never corrupted — it
+    holds either the new code or exactly what it held before. -/
+theorem order_by_without_repair_partial (recorded : Bool) (s : ErrSlot) :
+    (orderByRejectG recorded s).1 = .unsupported
+    ∧ ((orderByRejectG recorded s).2 = Code.unsupported.num ∨ (orderByRejectG recorded s).2 = s) := by
+  cases recorded
+  · exact ⟨rfl, Or.inr rfl⟩
+  · exact ⟨rfl, Or.inl rfl⟩
+
+theorem order_by_error_status :
+    (orderByErrorRecorded = true ∧ OrderByErrorRetrievable) ∨ (orderByErrorRecorded = false ∧ ¬ OrderByErrorRetrievable) := by
+  cases hg : orderByErrorRecorded with
+  | true => exact Or.inl ⟨rfl, order_by_error_retrievable_current hg⟩
+  | false =>
+    refine Or.inr ⟨rfl, fun h => order_by_error_lost_without_repair ?_⟩
+    intro s
+    have := h s
+    unfold orderByReject at this; rw [hg] at this; exact this
+
+/-! ### D34 — `askar_get_current_error` with a NULL out-pointer is an error code, not a crash -/
+
+def CurrentErrorNullOutIsErrorBy (checksOut : Bool) : Prop :=
+  ∀ s : ErrSlot, getCurrentErrorG checksOut true s = (.inputError, none, s)
+
+/-- … and for the CURRENT tree (`getCurrentError` follows `Generated.Flags.ffiCurrentErrorChecksOut`). -/
+def CurrentErrorNullOutIsError : Prop :=
+  ∀ s : ErrSlot, getCurrentError true s = (.inputError, none, s)
+
+/-- With the check: an error code, nothing written, and the pending error is still there for a
+    second, correct call. -/
+theorem current_error_null_out_is_error_of_repair : CurrentErrorNullOutIsErrorBy true := by
+  intro s; rfl
+
+theorem current_error_null_out_is_error_current (hg : currentErrorChecksOut = true) : CurrentErrorNullOutIsError := by
+  intro s
+  unfold getCurrentError; rw [hg]; rfl
+
+/-- Without it the statement is FALSE (defect D34, found by this check, fixed in a02d351): the
+    function writes through the NULL pointer. -/
+theorem current_error_null_out_crashes_without_repair : ¬ CurrentErrorNullOutIsErrorBy false := by
+  intro h
+  have := h 0
+  simp [getCurrentErrorG] at this
+
+/-- For both variants a valid out-pointer receives the pending code and the slot is emptied. -/
+theorem current_error_valid_out (checksOut : Bool) (s : ErrSlot) :
+    getCurrentErrorG checksOut false s = (.ok, some s, 0) := by
+  cases checksOut <;> rfl
+
+theorem current_error_null_out_status :
+    (currentErrorChecksOut = true ∧ CurrentErrorNullOutIsError) ∨ (currentErrorChecksOut = false ∧ ¬ CurrentErrorNullOutIsError) := by
+  cases hg : currentErrorChecksOut with
+  | true => exact Or.inl ⟨rfl, current_error_null_out_is_error_current hg⟩
+  | false =>
+    refine Or.inr ⟨rfl, fun h => current_error_null_out_crashes_without_repair ?_⟩
+    intro s
+    have := h s
+    unfold getCurrentError at this; rw [hg] at this; exact this
+
+/-- non-vacuity: both variants compute, and differ exactly where the defects were -/
+example : rekeyFfiG false (fun _ => false) .kdf .null = .ok () := rfl
+example : rekeyFfiG true (fun _ => false) .kdf .null = .error .input := rfl
+example : (rekeyFfiG true (fun k => k == "K") .raw (.utf8 "K")).toOption = some () := by decide +kernel
+example : (rekeyFfiG true (fun k => k == "K") .raw (.utf8 "L")).toOption = none := by decide +kernel
+example : (takeCurrentError (orderByRejectG false 5).2).1 = 5 ∧ (takeCurrentError (orderByRejectG true 5).2).1 = 8 := by decide
+example : (getCurrentErrorG false true 3).1 = .segfault ∧ (getCurrentErrorG true true 3).1 = .inputError := by decide
+
 end Askar.Ffi
